@@ -16,15 +16,20 @@ Definition ogg_read_page : P page := fun d p =>
   end.
 
 Definition ogg_vorbis_id := [1;118;111;114;98;105;115].        (* b"\x01vorbis" *)
-Definition ogg_first_is_id (pg : page) : bool :=
-  match p_packets pg with [] => false | pk :: _ => starts_with ogg_vorbis_id pk end.
+Definition ogg_opus_id := [79;112;117;115;72;101;97;100].       (* b"OpusHead" *)
+Definition ogg_speex_id := [83;112;101;101;120;32;32;32].       (* b"Speex   " *)
+Definition ogg_theora_id := [128;116;104;101;111;114;97].       (* b"\x80theora" *)
+Definition ogg_first_is (magic : list Z) (pg : page) : bool :=
+  match p_packets pg with [] => false | pk :: _ => starts_with magic pk end.
+Definition ogg_first_is_id := ogg_first_is ogg_vorbis_id.
 
-(* while not (page.packets and page.packets[0].startswith(b"\x01vorbis")): page = OggPage(fileobj) *)
-Fixpoint ogg_find_id (fuel : nat) (pg : page) : P page :=
+(* while not (page.packets and page.packets[0].startswith(magic)): page = OggPage(fileobj) *)
+Fixpoint ogg_find (fuel : nat) (magic : list Z) (pg : page) : P page :=
   match fuel with
   | O => praise EOutOfFuel
-  | S f => if ogg_first_is_id pg then pret pg else pg' <~ ogg_read_page ;; ogg_find_id f pg'
+  | S f => if ogg_first_is magic pg then pret pg else pg' <~ ogg_read_page ;; ogg_find f magic pg'
   end.
+Definition ogg_find_id (fuel : nat) := ogg_find fuel ogg_vorbis_id.
 
 Record ogv_info := mkOgv { ov_channels : Z; ov_rate : Z; ov_bitrate : Z; ov_serial : Z }.
 
@@ -69,4 +74,70 @@ Definition oggvorbis_load (d : list Z) : result ogv_info :=
   prun (pcatch (pconvert_io (ogv_init (ogv_fuel d))) ogg_is_eof (fun _ => praise EMutagen)) d.
 Definition ogv_info_list (i : ogv_info) : list Z := [ov_channels i; ov_rate i; ov_bitrate i; ov_serial i].
 
-(* EXTRACT: oggvorbis_info_load oggvorbis_load ogv_info_list *)
+
+(* ---- the other codec header finders: same page loop, different identification packet ---- *)
+(* OggOpusInfo.__init__ *)
+Definition ogo_init (fuel : nat) : P (list Z) :=
+  pg <~ ogg_read_page ;;
+  pg <~ ogg_find fuel ogg_opus_id pg ;;
+  if negb (first pg) then praise EMutagen
+  else
+    pk <~ plift (list_index 0 (p_packets pg)) ;;
+    (* try: struct.unpack("<BBHIhB", page.packets[0][8:19]) except struct.error: raise error *)
+    let s := zslice 8 19 pk in
+    s <~ pcatch (plift (if zlen s =? 11 then Ok s else Raise EStruct)) (fun e => exc_eqb e EStruct) (fun _ => praise EMutagen) ;;
+    let version := znth 0 s in
+    if negb (version / 16 =? 0) then praise EMutagen
+    else pret [znth 1 s; le_decode (zslice 2 4 s); p_serial pg].
+(* OggSpeexInfo.__init__ *)
+Definition ogs_init (fuel : nat) : P (list Z) :=
+  pg <~ ogg_read_page ;;
+  pg <~ ogg_find fuel ogg_speex_id pg ;;
+  if negb (first pg) then praise EMutagen
+  else
+    pk <~ plift (list_index 0 (p_packets pg)) ;;
+    if zlen pk <? 56 then praise EMutagen
+    else
+      rate <~ plift (unpack_le 4 (zslice 36 40 pk)) ;;
+      if rate =? 0 then praise EMutagen
+      else
+        channels <~ plift (unpack_le 4 (zslice 48 52 pk)) ;;
+        br <~ plift (unpack_le 4 (zslice 52 56 pk)) ;;
+        pret [rate; channels; Z.max 0 (to_signed_bits 32 br); p_serial pg].
+(* OggTheoraInfo.__init__ *)
+Definition ogt_init (fuel : nat) : P (list Z) :=
+  pg <~ ogg_read_page ;;
+  pg <~ ogg_find fuel ogg_theora_id pg ;;
+  if negb (first pg) then praise EMutagen
+  else
+    data <~ plift (list_index 0 (p_packets pg)) ;;
+    if zlen data <? 42 then praise EMutagen
+    else
+      let v := zslice 7 9 data in                                   (* struct.unpack("2B", data[7:9]) *)
+      if negb (zlen v =? 2) then praise EStruct
+      else if negb ((znth 0 v =? 3) && (znth 1 v =? 2)) then praise EMutagen
+      else
+        let f := zslice 22 30 data in                               (* struct.unpack(">2I", data[22:30]) *)
+        if negb (zlen f =? 8) then praise EStruct
+        else
+          let fps_num := be_decode (zslice 0 4 f) in
+          let fps_den := be_decode (zslice 4 8 f) in
+          if (fps_den =? 0) || (fps_num =? 0) then praise EMutagen
+          else if fps_den =? 0 then praise EZeroDiv                 (* fps_num / float(fps_den) *)
+          else
+            bitrate <~ plift (unpack_be 4 (0 :: zslice 37 40 data)) ;;
+            gs <~ plift (unpack_be 2 (zslice 40 42 data)) ;;
+            pret [fps_num; fps_den; bitrate; (gs / 32) mod 32; p_serial pg].
+
+Definition ogg_mapped (m : nat -> P (list Z)) (d : list Z) : result (list Z) :=
+  prun (pcatch (pconvert_io (m (ogv_fuel d))) ogg_is_eof (fun _ => praise EMutagen)) d.
+Definition oggopus_info_load (d : list Z) := prun (ogo_init (ogv_fuel d)) d.
+Definition oggspeex_info_load (d : list Z) := prun (ogs_init (ogv_fuel d)) d.
+Definition oggtheora_info_load (d : list Z) := prun (ogt_init (ogv_fuel d)) d.
+Definition oggopus_load := ogg_mapped ogo_init.
+Definition oggspeex_load := ogg_mapped ogs_init.
+Definition oggtheora_load := ogg_mapped ogt_init.
+Definition ogg_id (l : list Z) : list Z := l.
+
+(* EXTRACT: oggvorbis_info_load oggvorbis_load ogv_info_list oggopus_info_load oggspeex_info_load oggtheora_info_load
+            oggopus_load oggspeex_load oggtheora_load ogg_id *)
